@@ -13,4 +13,4 @@ def run(out, sc, tier, seed):
     run_model(out, sc, "MC_Human", ["Inv_Userinfo", "Inv_Path", "Inv_QueryPart", "Inv_Fragment"],
               ["MaxLen = %d" % (3 if tier == "quick" else 4)], label="MC_Human")
     out.exhaustive = True
-    run_progs(out, sc, "C18", {"gen": "human", "seed": seed, "n": 10000 if tier == "quick" else 250000}, "human", shard_size=2500)
+    run_progs(out, sc, "C18", {"gen": "human", "seed": seed, "n": 10000 if tier == "quick" else 80000}, "human", shard_size=2500)
